@@ -28,7 +28,17 @@ class NumOps (V : Type) where
   le : V → V → Bool
   /-- Go `int(1 / x)` on amd64: truncation when representable, otherwise -2^63 -/
   recipInt : V → Int
-  /-- `float64(n)` for a small natural number (bucket counts etc.) -/
+  /-- `float64(n)` for a natural number (round to nearest) -/
   ofNat : Nat → V
+  /-- `x < y` (false when either is NaN) -/
+  lt : V → V → Bool
+  /-- `x >= y` (false when either is NaN) -/
+  ge : V → V → Bool
+  isPosInf : V → Bool
+  /-- client_golang `counter.Add`'s fast path: `ival := uint64(v); float64(ival) == v`.
+      `some n` iff `v` is integer-valued with 0 ≤ v < 2^64 (then n = v) -/
+  toUInt64Exact : V → Option Nat
+  /-- Go `int(math.Ceil(float64(l) * q))` (NaN or out of range ↦ -2^63) -/
+  ceilMul : Nat → V → Int
 
 end SE
